@@ -68,19 +68,27 @@ func kNotAtomicMem(path, pos string, tsOnly bool) string {
 	return "C15/not-atomic/memory-vs-store/" + path + "/" + pos + tsSuffix(tsOnly)
 }
 
-// The next three name a root cause that does not depend on which later action
-// failed (the rollback re-creates a deleted entity from the exported config).
-func kCondLost(path string) string  { return "C15/not-atomic/processor-condition-lost/" + path }
-func kStateFailMem(path string) string { return "C15/state-lost/failed-import/memory/" + path }
-func kStateFailStore(path string) string { return "C15/state-lost/failed-import/store/" + path }
+// The next keys name a root cause that does not depend on which later action
+// failed: the rollback re-creates an entity the import had deleted, from the
+// exported configuration (which has neither the position nor the condition).
+func kCondLost(path string) string {
+	return "C15/not-atomic/processor-condition-lost/" + path + "/deleted-processor-recreated"
+}
+func kStateFail(side, path string, recreated bool) string {
+	if recreated {
+		return "C15/state-lost/failed-import/" + side + "/" + path + "/deleted-connector-recreated"
+	}
+	return "C15/state-lost/failed-import/" + side + "/" + path + "/other"
+}
 
 // A rollback that itself failed (only logged by the code under test).
-func kRollbackConnProcs(path, pos string) string {
-	return "C15/not-atomic/rollback-failed/connector-processors>=3/" + path + "/" + pos
+func kRollbackConnProcs(path string) string {
+	return "C15/not-atomic/rollback-failed/connector-processors>=3/" + path
 }
 func kRollbackOther(path, pos string) string {
 	return "C15/not-atomic/rollback-failed/other/" + path + "/" + pos
 }
+
 func tsSuffix(ts bool) string {
 	if ts {
 		return "/timestamp-only"
@@ -706,12 +714,12 @@ func (r *runner) step(s Step) (vs []violation, cont bool, herr error) {
 		key := kRollbackOther(r.path, pos)
 		for _, e := range rollbackErrs {
 			if strings.Contains(e, connector.ErrProcessorIDNotFound.Error()) && strings.Contains(e, "update connector") {
-				key = kRollbackConnProcs(r.path, pos)
+				key = kRollbackConnProcs(r.path)
 			}
 		}
 		add(key, "the rollback of a failed import failed, nothing else went wrong: %s", trunc(strings.Join(rollbackErrs, " | "), 1200))
 	default:
-		r.checkFailure(add, old, before, pos, df)
+		r.checkFailure(add, old, desired, before, pos, df)
 	}
 	if len(vs) > 0 || (fired && !injectedForward) {
 		if err := r.restart(); err != nil {
@@ -1002,7 +1010,7 @@ func (r *runner) checkSuccess(add addFn, old *config.Pipeline, desired config.Pi
 	_ = df
 }
 
-func (r *runner) checkFailure(add addFn, old *config.Pipeline, before map[string][]byte, pos string, df diffFacts) {
+func (r *runner) checkFailure(add addFn, old *config.Pipeline, desired config.Pipeline, before map[string][]byte, pos string, df diffFacts) {
 	after := r.w.db.Current()
 	if r.path == "txn" {
 		// a failed transactional import must not reach the store at all
@@ -1023,6 +1031,11 @@ func (r *runner) checkFailure(add addFn, old *config.Pipeline, before map[string
 		want = normalise(*old, nil)
 	}
 	sideOK, sideCfgOK := map[string]bool{}, map[string]bool{} // full / ignoring processor conditions
+	newProcs := allProcs(desired)
+	newConns := map[string]config.Connector{}
+	for _, c := range desired.Connectors {
+		newConns[c.ID] = c
+	}
 	for _, side := range []struct {
 		name string
 		w    *world
@@ -1040,7 +1053,18 @@ func (r *runner) checkFailure(add addFn, old *config.Pipeline, before map[string
 		case old != nil && js(got.withoutConditions()) != js(want.withoutConditions()):
 			add(side.key, "%s: after a failed import the configuration is not the previous one: %s", side.name, firstDiff(got.withoutConditions(), want.withoutConditions()))
 		case old != nil && js(got) != js(want):
-			add(kCondLost(r.path), "%s: after a failed import the configuration is the previous one except for processor conditions: %s", side.name, firstDiff(got, want))
+			// only processor conditions differ
+			gc, wc := got.conditions(), want.conditions()
+			for _, id := range sortedKeys(wc) {
+				if gc[id] == wc[id] {
+					continue
+				}
+				if _, kept := newProcs[id]; !kept && gc[id] == "" {
+					add(kCondLost(r.path), "%s: processor %s was deleted by the failed import and re-created by its rollback without its condition %q", side.name, id, wc[id])
+				} else {
+					add(side.key, "%s: after a failed import processor %s has condition %q, it had %q", side.name, id, gc[id], wc[id])
+				}
+			}
 			sideCfgOK[side.name] = true
 		default:
 			if miss, link := checkEntities(side.w, old, side.name); miss+link != "" {
@@ -1078,11 +1102,13 @@ func (r *runner) checkFailure(add addFn, old *config.Pipeline, before map[string
 	if old != nil {
 		for _, oc := range old.Connectors {
 			r.class("state-checked-across-failed-import")
+			nc, kept := newConns[oc.ID]
+			recreated := !kept || nc.Type != oc.Type // the import deletes (and maybe re-creates) this connector
 			if c, err := r.w.conns.Get(bg, oc.ID); sideCfgOK["memory"] && err == nil && js(c.State) != r.expState[oc.ID] {
-				add(kStateFailMem(r.path), "connector %s has state %s in memory after a failed import, it had %s", oc.ID, js(c.State), r.expState[oc.ID])
+				add(kStateFail("memory", r.path, recreated && c.State == nil), "connector %s has state %s in memory after a failed import, it had %s", oc.ID, js(c.State), r.expState[oc.ID])
 			}
 			if c, err := rel.conns.Get(bg, oc.ID); sideCfgOK["store"] && err == nil && js(c.State) != r.expState[oc.ID] {
-				add(kStateFailStore(r.path), "connector %s has state %s in the store after a failed import, it had %s", oc.ID, js(c.State), r.expState[oc.ID])
+				add(kStateFail("store", r.path, recreated && c.State == nil), "connector %s has state %s in the store after a failed import, it had %s", oc.ID, js(c.State), r.expState[oc.ID])
 			}
 		}
 	}
